@@ -356,7 +356,7 @@ class CliRun:
                 "stderr": self.err.decode("utf-8", "replace")[-600:]}
 
 
-def lace(ctx, args, stdin=b"", cwd=None, timeout=60, release=False, env=None, wrapper=None):
+def lace(ctx, args, stdin=b"", cwd=None, timeout=60, release=False, env=None, wrapper=None, stdin_file=None):
     exe = cli_bin(ctx, release)
     argv = (wrapper or []) + [exe] + args
     e = dict(ENV)
@@ -366,8 +366,13 @@ def lace(ctx, args, stdin=b"", cwd=None, timeout=60, release=False, env=None, wr
         e.update(env)
     t = time.time()
     try:
-        p = subprocess.run(argv, input=stdin, stdout=subprocess.PIPE, stderr=subprocess.PIPE,
-                           cwd=cwd or ctx.scratch, timeout=timeout, env=e)
+        if stdin_file is not None:
+            # standard input is the open file itself (a regular file, not a pipe)
+            p = subprocess.run(argv, stdin=stdin_file, stdout=subprocess.PIPE, stderr=subprocess.PIPE,
+                               cwd=cwd or ctx.scratch, timeout=timeout, env=e)
+        else:
+            p = subprocess.run(argv, input=stdin, stdout=subprocess.PIPE, stderr=subprocess.PIPE,
+                               cwd=cwd or ctx.scratch, timeout=timeout, env=e)
     except subprocess.TimeoutExpired as ex:
         return CliRun(args, None, ex.stdout or b"", ex.stderr or b"", time.time() - t)
     return CliRun(args, p.returncode, p.stdout, p.stderr, time.time() - t)
